@@ -35,7 +35,15 @@ def gen_case(rng):
             ops.append('t %d' % t)
         elif r < 0.75:
             ops.append('%s %s' % (rng.choice(['w', 'w', 'mw']), hx('line%d\n' % n))); n += 1
-        elif r < 0.85: ops.append('ls')
+        elif r < 0.80: ops.append('ls')
+        elif r < 0.85 and rot != 'n':
+            # a writer handed out by make_writer() is still alive on another thread when the next make_writer() crosses a boundary
+            ops.append('hold %s' % hx('line%d\n' % n)); n += 1
+            t = min((t // P + 1) * P + rng.choice([0, 7]), TMAX) if rng.random() < 0.8 else t
+            ops.append('t %d' % t)
+            # (one waiting make_writer only: a second one could lose the election and legitimately write into the file being replaced)
+            ops.append('mwb %s' % hx('line%d\n' % n)); n += 1
+            ops.append('rel')
         elif r < 0.9 and rot != 'n':
             t = min((t // P + 1) * P + rng.choice([0, 0, 5]), TMAX)
             ops.append('t %d' % t); ops.append('par %d' % rng.randrange(2, 9))
@@ -70,7 +78,7 @@ def judge(case, out):
             t = int(a[1])
             if t < tmax: backwards = True
             tmax = max(tmax, t)
-        elif a[0] in ('w', 'mw'):
+        elif a[0] in ('w', 'mw', 'hold', 'mwb'):
             expected[bytes.fromhex(a[1]).decode()] = name_for(rot, pre, suf, t)
         elif a[0] == 'par':
             for i in range(int(a[1])): expected['P%d\n' % i] = name_for(rot, pre, suf, t)     # (same names reused by later par ops: last wins)
@@ -164,7 +172,7 @@ PROPERTY = {
                 "first succeeds), prune_bound (at most max-1 of the appender's files survive the prune step, so at most max after the rotation) and prune_oldest_first. Facts about rolling.rs (deadline from NOW, CAS, prune "
                 "arithmetic and order, date formats) are extracted on every run. The model is compared with the real appender under a scripted clock (hook) over a scratch directory, through both the Write and the MakeWriter "
                 "interface and with 2-8 threads released at one boundary; an independent calendar (python datetime) judges names, uniqueness of stored lines and the file limit.",
-        'note': "Trusted: Lean kernel; propext/Classical.choice/Quot.sound; the file system (creation timestamps strictly increasing: the executor spaces operations by 2 ms; append-mode writes are whole); the Gregorian date of a "
+        'note': "Trusted: Lean kernel; propext/Classical.choice/Quot.sound; the file system (creation timestamps strictly increasing: the executor spaces file-creating operations by 12 ms, more than a kernel tick; append-mode writes are whole); the Gregorian date of a "
                 "day number in the model (Hinnant's civil_from_days) is checked against the real `time` crate and python's calendar by the differential run, not proved; pre-1970 instants are outside the property's range; "
                 "foreign files in the directory are not generated.",
         'technique': 'Lean 4 proof (arithmetic of periods, invariant over histories, permutation/sortedness of the prune step) + differential run of the real appender under a scripted clock + independent-calendar judge',
@@ -178,5 +186,5 @@ PROPERTY = {
             'then 6-24 ops: clock steps (inside the period, exactly onto / just past a boundary, 2-50 periods ahead, backwards, standing still), writes through io::Write and through make_writer, 2-8 threads released together '
             'at a boundary, directory listings; compared = every listing (names and bytes); judged = names by an independent calendar, no duplicated / lost line, at most max files. non-trivial = several files and a limit',
     'trusted_base': ['hand-written model Core/Rolling.lean', 'translator unit RollingFacts', 'hook in /repo (scripted UNIX clock for the rolling appender)', 'executor h_rolling'],
-    'assumptions': ['file creation timestamps are strictly increasing at 2 ms spacing'],
+    'assumptions': ['file creation timestamps are strictly increasing at 12 ms spacing (coarse file-system clock)'],
 }
